@@ -877,6 +877,41 @@ def reentrancy_sweep(res: Result, only: str | None = None) -> int:
     return n
 
 
+def debug_toggle_sweep(res: Result, only: str | None = None) -> int:
+    """Debug logging is switched on (or off) on the live client while operations are outstanding - applications do that when the log level
+    changes.  Each operation still ends with its own outcome: every matching atom of every operation kind, for both directions."""
+    from .. import world as _world
+
+    n = 0
+    ops = ("conn@1", "read@1.1", "readd@1.1", "write@1.1", "writed@1.1", "notify@1.1", "pair@1", "unpair@1", "clear@1", "disc@1", "svc@1")
+    for op in ops:
+        _atoms, matching = menu_for([op, "read@2.2"])
+        for atom in matching:
+            for direction in ("off->on", "on->off"):
+                key = f"debug-toggle:{op}:{atom}:{direction}"
+                if only is not None and key != only:
+                    continue
+                _world.DEFAULT_DEBUG[0] = direction == "on->off"
+                try:
+                    h = BleHarness((op, "read@2.2"), (), "none")
+                    w = h.fresh()
+                finally:
+                    _world.DEFAULT_DEBUG[0] = False
+                try:
+                    w.client.set_debug(direction == "off->on")
+                    _world.real_logging(direction == "off->on")
+                    w._real_logging = True  # restore on close
+                    h.apply(w, "m:" + atom)
+                    w.drain()
+                    v = h.verdict(w) or h.finish(w)
+                    n += 1
+                    if v:
+                        res.add(key, f"{v[0]} [debug logging switched {direction} while the operations were outstanding]", {"harness": "c16-debug-toggle", "key": key})
+                finally:
+                    h.close(w)
+    return n
+
+
 def factory(ops: tuple[str, ...], late: tuple[str, ...], pairs: str) -> BleHarness:
     return BleHarness(ops, late, pairs)
 
@@ -919,6 +954,7 @@ def run(tier: str, seed: int) -> Result:
     n_cancel = cancel_sweep(res)
     n_reent = reentrancy_sweep(res)
     n_refused = refused_call_sweep(res)
+    n_toggle = debug_toggle_sweep(res)
     ends = {k[4:] for k in total.tags if k.startswith("end:")}
     need = {"read:ok", "read:BluetoothGATTAPIError", "read:BluetoothConnectionDroppedError", "read:TimeoutAPIError", "conn:ok", "conn:TimeoutAPIError"}
     if not res.violations and not need <= ends:
@@ -932,6 +968,7 @@ def run(tier: str, seed: int) -> Result:
         "caller_cancellation_runs": n_cancel,
         "reentrant_start_runs": n_reent,
         "refused_call_runs": n_refused,
+        "debug_toggle_runs": n_toggle,
         "distinct_outcomes": len(total.outcomes),
         "configs": per_cfg,
         "exhaustive": not total.time_capped,
@@ -962,6 +999,11 @@ def replay(rp: dict[str, Any]) -> bool:
     if d.get("harness") == "c16-reentrant":
         r = Result("C16", "model_checking")
         reentrancy_sweep(r, only=d["key"])
+        print(d["key"], "->", [v.clause for v in r.violations] or "holds")
+        return not r.violations
+    if d.get("harness") == "c16-debug-toggle":
+        r = Result("C16", "model_checking")
+        debug_toggle_sweep(r, only=d["key"])
         print(d["key"], "->", [v.clause for v in r.violations] or "holds")
         return not r.violations
     if d.get("harness") == "c16-cancel":
